@@ -372,7 +372,13 @@ def r08_4(ck: Check) -> None:
 
 def r08_5(ck: Check) -> None:
     w = Writer(ck)
-    ex = w.execs
+    # what runs in an exception handler is not part of the batch: there only a ROLLBACK may be issued
+    in_handler = [e for e in w.execs if any(c.prov == "handler" for c in e.pc)]
+    ex = [e for e in w.execs if e not in in_handler]
+    for e in in_handler:
+        txt = e.term[2][0][1].strip().lower() if e.term[2] and e.term[2][0][0] == "c" else "?"
+        if not txt.startswith("rollback"):
+            ck.violated("R08.5", "write_blocks_to_disk: a failure handler issues nothing but ROLLBACK", "it executes %r" % txt[:60], e.loc)
     construct = "write_blocks_to_disk: BEGIN; all INSERTs; COMMIT on one cursor, once"
     texts = [(e.parts[0][2], e.term[2][0][1].strip().lower() if e.term[2] and e.term[2][0][0] == "c" else "?") for e in ex]
     curs = {e.parts[0][1] for e in ex}
